@@ -142,7 +142,7 @@ func init() {
 		fmt.Println("From Coq Require Import List NArith ZArith Bool.\nFrom TarsV Require Import Xlate.GoSem.\nImport ListNotations.\nOpen Scope Z_scope.\n")
 		fmt.Println(strings.Join(defs, "\n"))
 		for _, e := range errs { // a sample outside the subset: the file does not compile
-			fmt.Printf("Fail Fail Check \"%s\".\n", strings.ReplaceAll(e, "\"", "'"))
+			fmt.Printf("(* %s *)\nDefinition sample_outside_the_subset : False := I.\n", strings.ReplaceAll(strings.ReplaceAll(e, "(*", "( *"), "*)", "* )"))
 		}
 		total := 0
 		for _, s := range xSamples {
